@@ -15,13 +15,15 @@ func init() {
 	register(&PropSpec{
 		ID:    "C07",
 		Title: "Permanode attributes and deletions follow the documented claim semantics",
-		Explanation: "Decided (structural necessary conditions, over every claim fold = every function that compares the Type field of a camtypes.Claim with the schema set/add/del-attribute constants, found by type, not by name): " +
+		Explanation: "Decided (structural necessary conditions, over every claim fold = every function that compares the Type field of a camtypes.Claim with the schema set/add/del-attribute constants, found by type, not by name). " +
+			"Effective bodies: every clause looks for its tests, calls and stores in the EFFECTIVE body of a function, not in its text: a fold is named after the unique function in which the folded claims originate as something other than a parameter when all static call chains from the switch lead to that one function (a switch or loop moved into a helper keeps its name), else after the outermost pure delegate above the switch, else after the function holding the switch; a skip test (claim newer than the query time, claim deleted, last two claims in date order) may sit in a boolean helper or literal the claim is handed to - the helper's result X counts as the skip when every return that may yield X is unreachable in the helper without the establishing edge (depth 3); a fold that applies ONE claim handed in as a parameter is bounded by time / filtered for deletion at each of its static call sites, followed upward through callers that pass their own parameter on (depth 4); 'P precedes the site' also holds when P is performed on every path of a helper called before the site, or before every static call of the helper holding the site (depth 3); 'a fix-up follows' also holds through a called function that performs one on each of its paths, and for a store inside a helper on the paths after each of the helper's static calls. " +
+			"Clauses: " +
 			"A-fold (i) each fold handles all three claim types and its del-attribute case distinguishes the empty value (delete all) from a specific value; " +
 			"(iv, #del-removes-all) in each fold, the arm of the del-attribute case run for a del WITH a value (the blocks dominated by the not-empty edge of the emptiness test; the whole case when that is no separate region) removes EVERY element equal to the claim's Value from the list that leaves the arm (slice values defined in the arm that reach a phi outside it, a map entry, a variable or a return; a module helper returning the list is followed into its body). Accepted, decided per header-to-header path of the loop with the counter's next value computed as counter + constant: filter loops (append(kept, e) or list[w] = e; w++ with result list[:w]) whose read counter advances by exactly one on every path, that keep an element only on an edge where it is known != Value and drop it only where it is known == Value, start at the first element with an empty kept list / write counter 0, are bounded by len(list) and are left only at that bound; in-place removal loops (slices.Delete(l,i,i+1), append(l[:i], l[i+1:]...), copy-down + re-slice at the compared index) in which the path that removed the element at index i re-enters the header with the counter still at i (i-- before i++, or continue past the increment) while keeping paths advance by one, or which count down; slices.DeleteFunc with an `e == Value` predicate. Violations: the counter advances to i+1 after a removal at i (the element that slid into slot i is never compared), the loop is left on the path where an equal element was found, an element known equal is kept / one known different is dropped, a single element is removed outside a loop carrying the list, the valued arm empties the list. A fold whose del arm produces no list at all (PermanodeHasAttrValue's boolean, pnCamliContent's single ref) is exempt. Anything else in the arm is undecided. " +
-			"(ii) each fold that has a query time available skips (continue/break) every claim whose Date is After that time on every path to the type switch, except paths on which the time is known zero; a fold that applies one claim to a cache and has no time input is accepted only because every function that hands out that cache together with a time parameter returns it solely under {time is zero, no claims, or the LAST claim is not After the time}, and the cache fields are read by no other function; " +
-			"(iii) the claims folded exclude claims that were themselves deleted: an IsDeleted(claim.BlobRef) skip lies on every path to the switch, or every source the folded claims are traced back to (through parameters to all static callers, struct fields to all their stores, call results to the callee's returns) is the result of an AppendClaims method or a filtering append guarded by such a skip; every AppendClaims method appends a claim only behind an IsDeleted(claim.BlobRef) skip. A source that is the raw PermanodeMeta.Claims list is a violation (defect F13, see known_findings.json). " +
+			"(ii) each fold that has a query time available skips (continue/break) every claim whose Date is After that time on every path to the type switch, except paths on which the time is known zero; the test may also be written at.Before(claim.Date); a fold that applies one claim handed in by its callers is checked at every static call instead (the call must lie behind the skip in the caller; a caller with a query time and no skip is a violation); where such a chain ends in code that has no time at all the fold builds a cache (its type: the named map type of the step's receiver or parameter) and is accepted only because every function that hands out that cache together with a time parameter returns it solely under {time is zero, no claims, or the LAST claim is not After the time}, and the cache fields are read by no other function (comparing the field with nil, len and insertion read nothing out; functions on the call chain to the step that are methods of the owning struct / cache type or return nothing but errors are the builders); " +
+			"(iii) the claims folded exclude claims that were themselves deleted: an IsDeleted(claim.BlobRef) skip lies on every path to the switch, or every source the folded claims are traced back to (through parameters to all static callers, struct fields to all their stores, call results to the callee's returns) is the result of an AppendClaims method or a filtering append guarded by such a skip; every AppendClaims method appends a claim only behind an IsDeleted(claim.BlobRef) skip - the appends are those of the method and of the module helpers / literals returning a claim list that it calls (depth 3), the skip may sit at the helper's call for a claim passed as parameter. A source that is the raw PermanodeMeta.Claims list is a violation (defect F13, see known_findings.json). " +
 			"A-deleted: each IsDeleted implementation recurses on the DELETER of each deletion record selected by its argument and answers true only where that recursive call returned false (a deleted delete claim does not count); Index.IsDeleted returns only such a core applied to its own argument. " +
-			"A-order: the incremental cache update in fixupLastClaim (a cache step outside the full rebuild) happens only when the last two claims are known to be in date order (or there are fewer than two), every other path rebuilds after sorting; the rebuild sorts Claims before folding and resets the caches; every append to PermanodeMeta.Claims is followed on every path by a fix-up unless the corpus is still building, and the bulk load rebuilds every permanode. " +
+			"A-order (sites found by role, not by name: a call handing element len-1 of PermanodeMeta.Claims to the cache step or to a function passing its own claim parameter on to it is an incremental update, such a call inside a loop over Claims is a rebuild): every incremental update is reached only over an edge on which the last two claims are known to be in date order (or fewer than two exist), in its function or at every static call of it when it is a helper; the rebuild sorts Claims and replaces every cache field by a fresh map before refolding; every store to PermanodeMeta.Claims is followed on every path to an exit by a fix-up (an incremental/rebuild site, or a call of a function every path of which performs one) unless the corpus is still building, and the bulk-load flag is cleared only after a loop rebuilding every permanode. That a function holding an incremental site also rebuilds on its other paths is no longer a separate obligation: it is decided where the claim list grows. " +
 			"A-own (storage ownership of the attribute caches; the cache type is found by type as the named map-of-slices receiver of the one-claim fold step; a 'cache map' is any value of that type or reached from one through conversions, variables, parameters, results and struct fields, module-wide): " +
 			"(in-place-updates) the writes of entry storage in place are enumerated from SSA - element stores through, append onto, copy into or clear of a slice read from a cache map (also inside callees, stdlib generic bodies included) where the slice goes back under the same map and key; the sharing clauses below are enforced only when at least one exists (today: the del-attribute filter and the add-attribute append in cacheAttrClaim). " +
 			"(entry-store) for every m[k] = x on a cache map, x traced backward through re-slices, conversions, phis, variables, append's first operand, callee returns (bodies followed, with parameters mapped to the call's arguments) and parameters to all static callers consists only of fresh storage (make, a slice of a new array / composite literal, nil, a zero-capacity slice) and of the previous value of the SAME map and key; reaching an entry of a different cache map, or of another key, without an intervening allocation is a violation (re-slicing, slices.Clip, full slice expressions, helper functions do not allocate). " +
@@ -31,14 +33,14 @@ func init() {
 			"(cache-map-flow) no cache map is returned by an exported function, stored in a package variable, shallow-copied with maps.Clone, sent on a channel; conversion to an interface (other than as a fmt/log operand), dynamic calls and code without a body are undecided. " +
 			"NOT decided: the folded values themselves for any concrete history (of the fold arms only the valued del is checked element by element; that the list being filtered is the accumulator's previous value, and set/add, are not) (e.g. duplicate handling of add-attribute differs between Describe and the corpus and is not compared), that Claims really is sorted (only that sort/Less are called), URL-escaping of values, signer filtering, equality of answers between index rows and corpus for any concrete input, anything about future-dated claims when the query time is zero. For A-own: that a fresh slice stored into a cache holds the right elements (only that its storage is unshared); that the first signer's entry really is replaced by the copy on every path before a second signer's entry is added (only what is stored, and where sharing is allowed, is checked); aliasing through reflect/unsafe; a field re-assigned between two reads that have the same access path; what callers outside the module do with values they were given.",
 		RuleDocs: map[string]string{
-			"A-fold":    "sibling rule over every function comparing camtypes.Claim.Type with the set/add/del-attribute constants: (i) exhaustive + del distinguishes empty value, (iv #del-removes-all) the valued-del arm's filter / in-place removal loop / slices.DeleteFunc examines every element and removes every one equal to the claim's value (after a removal at index i the loop counter must still be i), (ii) bounded by the query time (or cache handed out only when valid for the time), (iii) deleted claims excluded in the fold or at every traced claim source; AppendClaims methods append only behind an IsDeleted skip",
+			"A-fold":    "sibling rule over every function comparing camtypes.Claim.Type with the set/add/del-attribute constants: (i) exhaustive + del distinguishes empty value, (iv #del-removes-all) the valued-del arm's filter / in-place removal loop / slices.DeleteFunc examines every element and removes every one equal to the claim's value (after a removal at index i the loop counter must still be i), (ii) bounded by the query time in the fold, in a boolean helper, or at every static call of a one-claim helper (or cache handed out only when valid for the time), (iii) deleted claims excluded in the fold or at every traced claim source; AppendClaims methods (and the helpers they build their result with) append only behind an IsDeleted skip. Folds are named after the function where the claims originate, so moving the switch or loop into a helper keeps the construct",
 			"A-deleted": "every IsDeleted core recurses on the deleter selected by its argument and returns true only on the recursive call's false edge; the Index.IsDeleted dispatcher returns a core applied to its own argument",
 			"A-own":     "ownership of cache storage, given that entries are updated in place (enumerated from SSA): every m[k]=x on a cache map stores fresh storage or the same entry's own previous slice, never (a re-slice/Clip/conversion of) an entry of another cache or key; slices read from a cache are only read or stored back under their own key, never returned by exported functions, kept in fields/globals/other maps or written elsewhere; a cache map is stored into a second holder only fresh or while the map of caches is empty; one claim is not applied to a field-held map and a map-of-caches entry unless >= 2 entries are known; cache maps do not leave the package's unexported code",
-			"A-order":   "the attribute cache is updated incrementally only when the new claim is last in date order; otherwise (and after bulk load) it is rebuilt from the sorted claim list; every append to PermanodeMeta.Claims is followed by that fix-up unless building",
+			"A-order":   "the attribute cache is updated incrementally (a call handing Claims[len-1] to the cache step) only over an edge where the last two claims are in date order, in the function or at all static calls of a helper; the rebuild loop is preceded by a sort of Claims and a fresh map for every cache field (helpers followed both ways); every store to PermanodeMeta.Claims is followed on all paths by such a site or a call of a function that always performs one, unless building; the bulk-load flag is cleared only after rebuilding every permanode",
 		},
 		Run:       runC07,
 		DesignRef: "DESIGN.md §4 C07",
-		Technique: "static analysis: sibling comparison of all claim folds found by type; for the valued del arm, enumeration of every acyclic header-to-header and header-to-exit path of the removal loop with phis resolved along the path, loop counters and slice bounds evaluated as counter + constant, branch facts `element ==/!= claim.Value` collected per path, and classification of the loop-carried list's next value (unchanged / append of the compared element / removal at the compared index); CFG reachability with guard edges removed (time bound, deleted-claim skip, cache validity); inter-procedural back-tracing of the folded claims to their sources through parameters, struct-field stores and call results; dominance facts on recursive IsDeleted calls; for A-own a module-wide forward value-flow of cache maps (by type, through conversions, variables, fields, parameters, results), backward slicing of every stored entry value to its allocation sites and forward escape analysis of every entry read, both inter-procedural with callee bodies (including instantiated stdlib generics) followed and summarised",
+		Technique: "static analysis: sibling comparison of all claim folds found by type; inter-procedural effective bodies (guard tests summarised through boolean helpers per result polarity, one-claim folds checked at their static call sites, precedence and fix-up facts carried across helper calls in both directions); for the valued del arm, enumeration of every acyclic header-to-header and header-to-exit path of the removal loop with phis resolved along the path, loop counters and slice bounds evaluated as counter + constant, branch facts `element ==/!= claim.Value` collected per path, and classification of the loop-carried list's next value (unchanged / append of the compared element / removal at the compared index); CFG reachability with guard edges removed (time bound, deleted-claim skip, cache validity); inter-procedural back-tracing of the folded claims to their sources through parameters, struct-field stores and call results; dominance facts on recursive IsDeleted calls; for A-own a module-wide forward value-flow of cache maps (by type, through conversions, variables, fields, parameters, results), backward slicing of every stored entry value to its allocation sites and forward escape analysis of every entry read, both inter-procedural with callee bodies (including instantiated stdlib generics) followed and summarised",
 		LevelText: "Decides structural necessary conditions only: every attribute-claim fold in the tree treats set/add/del alike in shape, removes in its del-with-value arm every element equal to the claim's value (each element is compared exactly once, also the one that slides into a slot just vacated), is bounded by the query time, and excludes deleted claims either itself or at its claim sources; the attribute cache is only handed out when no claim is newer than the query time and is rebuilt when claims arrive out of date order; deletion tests recurse on the deleter; the storage of a cached attribute slice has exactly one owner (one map, one key), so the in-place update of one signer's or the all-signers cache cannot change another cache or a value already handed to a caller. It does not decide the attribute values for any concrete claim history, nor equality of the index-row and corpus answers.",
 	})
 }
@@ -66,6 +68,7 @@ type c07Ctx struct {
 	// stores to struct fields, module wide, keyed by c07FieldKey
 	fieldStores map[string][]*ssa.Store
 	pmT         *types.Named // index.PermanodeMeta
+	tg, dg, og  *c07Guard    // time / deleted-claim / date-order guards
 	claimsField string       // name of the []*camtypes.Claim field of PermanodeMeta
 }
 
@@ -331,7 +334,8 @@ type c07Fold struct {
 	handle ssa.Value               // the claim (pointer, local copy, or struct value) whose Type is switched on
 	cmps   map[string][]*ssa.BinOp // "set"/"add"/"del" -> comparisons
 	head   *ssa.BasicBlock         // comparison block dominating all other comparisons
-	key    string                  // FuncKey (+ ordinal when a function holds several folds)
+	key    string                  // FuncKey of the owner (+ ordinal when a function owns several folds)
+	owner  *ssa.Function           // the function the fold is named after (see foldOwner)
 }
 
 func c07FindFolds(cx *c07Ctx) []*c07Fold {
@@ -374,11 +378,7 @@ func c07FindFolds(cx *c07Ctx) []*c07Fold {
 				}
 			}
 		}
-		for i, f := range local {
-			f.key = FuncKey(fn)
-			if i > 0 {
-				f.key = fmt.Sprintf("%s@fold%d", f.key, i+1)
-			}
+		for _, f := range local {
 			var blocks []*ssa.BasicBlock
 			for _, cs := range f.cmps {
 				for _, c := range cs {
@@ -400,7 +400,18 @@ func c07FindFolds(cx *c07Ctx) []*c07Fold {
 			out = append(out, f)
 		}
 	}
-	sort.Slice(out, func(i, j int) bool { return out[i].key < out[j].key })
+	// name each fold after its owner (see foldOwner); several folds of one owner are numbered
+	sort.SliceStable(out, func(i, j int) bool { return FuncKey(out[i].fn) < FuncKey(out[j].fn) })
+	perOwner := map[string]int{}
+	for _, f := range out {
+		f.owner = cx.foldOwner(f)
+		f.key = FuncKey(f.owner)
+		perOwner[f.key]++
+		if n := perOwner[f.key]; n > 1 {
+			f.key = fmt.Sprintf("%s@fold%d", f.key, n)
+		}
+	}
+	sort.SliceStable(out, func(i, j int) bool { return out[i].key < out[j].key })
 	return out
 }
 
@@ -524,106 +535,254 @@ func c07TestsEmptyValue(f *c07Fold, body *ssa.BasicBlock) bool {
 }
 
 // clause (ii)
-func c07FoldTime(cx *c07Ctx, r *Reporter, f *c07Fold, site string) {
-	p := cx.p
-	fn := f.fn
-	construct := f.key + "#time-bound"
-	isTimeInput := func(v ssa.Value) bool {
-		switch x := v.(type) {
-		case *ssa.Parameter:
-			return c07IsTimeType(x.Type())
-		case *ssa.FieldAddr:
-			return c07IsTimeType(c07Deref(x.Type()))
-		case *ssa.Field:
-			return c07IsTimeType(x.Type())
-		}
-		return false
+
+// c07TimeInputOf: v is a time the function was given: a time parameter, or a
+// time field of a struct other than a claim.
+func c07TimeInput(v ssa.Value) bool {
+	switch x := v.(type) {
+	case *ssa.Parameter:
+		return c07IsTimeType(x.Type())
+	case *ssa.FreeVar:
+		return c07IsTimeType(c07Deref(x.Type()))
+	case *ssa.FieldAddr:
+		return c07IsTimeType(c07Deref(x.Type())) && !c07IsClaim(c07Deref(x.X.Type()))
+	case *ssa.Field:
+		return c07IsTimeType(x.Type()) && !c07IsClaim(x.X.Type())
 	}
-	// calls (time.Time).After(claim.Date, X)
-	var afters []CallSite
-	for _, c := range CallsIn(fn, false) {
-		if !c.IsStatic("time", "Time", "After") || c.Value() == nil {
-			continue
-		}
-		if h, ok := c07ClaimField(c.Args()[0], "Date"); ok && h == f.handle {
-			afters = append(afters, c)
-		}
-	}
-	hasTime := false
-	for _, prm := range fn.Params {
-		if c07IsTimeType(prm.Type()) {
-			hasTime = true
-		}
-	}
-	if recv := fn.Signature.Recv(); recv != nil {
-		if st, ok := c07Deref(recv.Type()).Underlying().(*types.Struct); ok {
-			for i := 0; i < st.NumFields(); i++ {
-				if c07IsTimeType(st.Field(i).Type()) {
-					hasTime = true
-				}
+	return false
+}
+
+// c07HasTime: a query time is available to fn (parameter, receiver field; for
+// a literal also what its enclosing functions have).
+func c07HasTime(fn *ssa.Function) bool {
+	for g := fn; g != nil; g = g.Parent() {
+		for _, prm := range g.Params {
+			if c07IsTimeType(prm.Type()) {
+				return true
 			}
 		}
-	}
-	if len(afters) == 0 {
-		// other comparisons of the claim's date that this rule does not model
-		for _, c := range CallsIn(fn, false) {
-			if cal := c.Callee(); cal != nil && funcIs(cal, "time", "Time", c.MethodName()) {
-				for _, a := range c.Args() {
-					if h, ok := c07ClaimField(a, "Date"); ok && h == f.handle {
-						r.Undecided("A-fold", construct, site, fmt.Sprintf("(ii) %s compares the claim's Date with time.Time.%s, not After; this rule only models the `cl.Date.After(at)` skip", FuncKey(fn), c.MethodName()))
-						return
+		if recv := g.Signature.Recv(); recv != nil {
+			if st, ok := c07Deref(recv.Type()).Underlying().(*types.Struct); ok {
+				for i := 0; i < st.NumFields(); i++ {
+					if c07IsTimeType(st.Field(i).Type()) {
+						return true
 					}
 				}
 			}
 		}
-		switch {
-		case hasTime:
-			r.Violation("A-fold", construct, site, fmt.Sprintf("(ii) %s has a query time available but never skips claims whose Date is After it: a historical query folds claims newer than the requested time", FuncKey(fn)))
-		case c07IsParam(f.handle):
-			c07CacheConsumers(cx, r, f, construct, site)
+	}
+	return false
+}
+
+// timeGuard: the skip of claims newer than the query time. Primitive tests:
+// claim.Date.After(at) / at.Before(claim.Date) (established when false) and
+// at.IsZero() (paths on which the time is known zero are unbounded by design).
+func (cx *c07Ctx) timeGuard() *c07Guard {
+	if cx.tg != nil {
+		return cx.tg
+	}
+	cx.tg = &c07Guard{needHandle: true}
+	cx.tg.prims = func(fn *ssa.Function, handle ssa.Value) []c07Test {
+		var out []c07Test
+		nDate := 0
+		for _, c := range CallsIn(fn, false) {
+			call := c.Value()
+			if call == nil {
+				continue
+			}
+			args := c.Args()
+			switch {
+			case c.IsStatic("time", "Time", "After") && len(args) == 2:
+				if h, ok := c07ClaimField(args[0], "Date"); ok && h == handle && c07DependsOn(args[1], c07TimeInput) {
+					out = append(out, c07Test{call, false})
+					nDate++
+				}
+			case c.IsStatic("time", "Time", "Before") && len(args) == 2:
+				if h, ok := c07ClaimField(args[1], "Date"); ok && h == handle && c07DependsOn(args[0], c07TimeInput) {
+					out = append(out, c07Test{call, false})
+					nDate++
+				}
+			}
+		}
+		if nDate == 0 {
+			return nil
+		}
+		for _, c := range CallsIn(fn, false) {
+			call := c.Value()
+			if call == nil {
+				continue
+			}
+			if n := c.MethodName(); n != "IsZero" && n != "IsAnyZero" {
+				continue
+			}
+			args := c.Args()
+			if len(args) == 1 && c07IsTimeType(c07Deref(args[0].Type())) && c07DependsOn(args[0], c07TimeInput) {
+				out = append(out, c07Test{call, true})
+			}
+		}
+		return out
+	}
+	cx.tg.callOK = func(c CallSite, callee *ssa.Function) bool {
+		// the helper's time arguments are the caller's query time
+		n := 0
+		for _, a := range c.Args() {
+			if c07IsTimeType(c07Deref(a.Type())) {
+				n++
+				if !c07DependsOn(a, c07TimeInput) {
+					return false
+				}
+			}
+		}
+		return n > 0 || callee.Parent() != nil
+	}
+	return cx.tg
+}
+
+type c07TimeRes struct {
+	status string // guarded | unguarded | none | undecided
+	n      int
+	detail string
+	pos    token.Pos
+}
+
+// timeGuardAt: is target (a block of fn) reachable from the definition of the
+// claim handle only through the not-newer-than-the-query-time edge?
+func (cx *c07Ctx) timeGuardAt(fn *ssa.Function, handle ssa.Value, target *ssa.BasicBlock) c07TimeRes {
+	g := cx.timeGuard()
+	tests := g.tests(fn, handle, 0)
+	if len(tests) == 0 {
+		// comparisons of the claim's date that this rule does not model
+		for _, c := range CallsIn(fn, false) {
+			cal := c.Callee()
+			if cal == nil || !funcIs(cal, "time", "Time", c.MethodName()) {
+				continue
+			}
+			for _, a := range c.Args() {
+				if h, ok := c07ClaimField(a, "Date"); ok && h == handle {
+					if n := c.MethodName(); n == "After" || n == "Before" {
+						return c07TimeRes{status: "undecided", pos: c.Pos(), detail: fmt.Sprintf("the time %s compares the claim's Date with in Date.%s does not derive from a time parameter or time field; cannot tell it is the query time", FuncKey(fn), n)}
+					}
+					return c07TimeRes{status: "undecided", pos: c.Pos(), detail: fmt.Sprintf("%s compares the claim's Date with time.Time.%s; this rule only models the `cl.Date.After(at)` / `at.Before(cl.Date)` skip", FuncKey(fn), c.MethodName())}
+				}
+			}
+		}
+		return c07TimeRes{status: "none"}
+	}
+	est := c07EstEdges(fn, tests)
+	if len(est) == 0 {
+		return c07TimeRes{status: "undecided", detail: fmt.Sprintf("the result of the Date test in %s does not feed a branch", FuncKey(fn))}
+	}
+	if c07Reach(c07DefBlock(fn, handle), target, est) {
+		return c07TimeRes{status: "unguarded", n: len(tests)}
+	}
+	return c07TimeRes{status: "guarded", n: len(tests)}
+}
+
+type c07TimeUp struct {
+	kind   string // guarded | violation | undecided | cachebuild
+	fn     *ssa.Function
+	pos    token.Pos
+	detail string
+}
+
+// timeUp follows a one-claim fold (its claim is parameter idx of fn) to its
+// static callers: each call must lie behind the time skip in the caller; a
+// caller that has no time and passes its own parameter is followed further; a
+// chain ending where no time exists at all builds a present-time cache.
+func (cx *c07Ctx) timeUp(fn *ssa.Function, idx int, depth int, seen map[*ssa.Function]bool) []c07TimeUp {
+	if seen[fn] {
+		return nil
+	}
+	seen[fn] = true
+	if !cx.followable(fn) || depth > 4 {
+		return []c07TimeUp{{kind: "cachebuild", fn: fn, pos: fn.Pos()}}
+	}
+	var out []c07TimeUp
+	for _, c := range cx.callers(fn) {
+		args := c.Args()
+		if idx >= len(args) {
+			continue
+		}
+		g := c.Fn
+		h := originValue(args[idx])
+		res := cx.timeGuardAt(g, h, c.Block())
+		switch res.status {
+		case "guarded":
+			out = append(out, c07TimeUp{kind: "guarded", fn: g, pos: c.Pos()})
+		case "unguarded":
+			out = append(out, c07TimeUp{kind: "violation", fn: g, pos: c.Pos(), detail: fmt.Sprintf("in %s a path reaches the call of %s without having passed `Date.After(at)` on its false edge (and without the time being known zero): claims newer than the query time are folded", FuncKey(g), FuncKey(fn))})
+		case "undecided":
+			out = append(out, c07TimeUp{kind: "undecided", fn: g, pos: c.Pos(), detail: res.detail})
 		default:
+			prm, isPrm := h.(*ssa.Parameter)
+			switch {
+			case isPrm && prm.Parent() == g && g.Parent() == nil:
+				out = append(out, cx.timeUp(g, c07ParamIndex(g, prm), depth+1, seen)...)
+			case c07HasTime(g):
+				out = append(out, c07TimeUp{kind: "violation", fn: g, pos: c.Pos(), detail: fmt.Sprintf("%s has a query time available but hands claims to %s without skipping those whose Date is After it: a historical query folds claims newer than the requested time", FuncKey(g), FuncKey(fn))})
+			default:
+				out = append(out, c07TimeUp{kind: "cachebuild", fn: g, pos: c.Pos()})
+			}
+		}
+	}
+	if len(out) == 0 {
+		out = append(out, c07TimeUp{kind: "cachebuild", fn: fn, pos: fn.Pos()})
+	}
+	return out
+}
+
+func c07FoldTime(cx *c07Ctx, r *Reporter, f *c07Fold, site string) {
+	p := cx.p
+	fn := f.fn
+	construct := f.key + "#time-bound"
+	res := cx.timeGuardAt(fn, f.handle, f.head)
+	switch res.status {
+	case "guarded":
+		r.OK("A-fold", construct, site, fmt.Sprintf("(ii) every path to the switch passes the false edge of claim.Date.After(<query time>) (%d test(s), boolean helpers followed), or a time-is-zero edge", res.n))
+		return
+	case "unguarded":
+		r.Violation("A-fold", construct, site, fmt.Sprintf("(ii) in %s a path reaches the claim-type switch without having passed `Date.After(at)` on its false edge (and without the time being known zero): claims newer than the query time are folded", FuncKey(fn)))
+		return
+	case "undecided":
+		s := site
+		if res.pos.IsValid() {
+			s = p.Pos(res.pos)
+		}
+		r.Undecided("A-fold", construct, s, "(ii) "+res.detail)
+		return
+	}
+	// no test of the claim's date in the function holding the switch
+	prm, isPrm := f.handle.(*ssa.Parameter)
+	if !isPrm || prm.Parent() != fn || fn.Parent() != nil {
+		if c07HasTime(fn) {
+			r.Violation("A-fold", construct, site, fmt.Sprintf("(ii) %s has a query time available but never skips claims whose Date is After it: a historical query folds claims newer than the requested time", FuncKey(fn)))
+		} else {
 			r.OKTable("A-fold", construct, site, fmt.Sprintf("(ii) not applicable: %s has no time input (no time parameter, no time field on its receiver) and so answers for the present only", FuncKey(fn)))
 		}
 		return
 	}
-	removed := map[c07Edge]bool{}
-	nIf := 0
-	for _, a := range afters {
-		a := a
-		if !c07DependsOn(a.Args()[1], isTimeInput) {
-			r.Undecided("A-fold", construct, p.Pos(a.Pos()), fmt.Sprintf("(ii) the argument of Date.After in %s does not derive from a time parameter or time field; cannot tell it is the query time", FuncKey(fn)))
+	// the switch applies ONE claim handed in by the caller: the bound is the callers' business
+	ups := cx.timeUp(fn, c07ParamIndex(fn, prm), 0, map[*ssa.Function]bool{})
+	nGuarded, cache := 0, false
+	for _, u := range ups {
+		switch u.kind {
+		case "violation":
+			r.Violation("A-fold", construct, p.Pos(u.pos), "(ii) "+u.detail)
 			return
-		}
-		for _, e := range c07IfEdges(fn, func(v ssa.Value) bool { return v == ssa.Value(a.Value()) }) {
-			removed[c07Other(e)] = true // the "not after" edge is the only legitimate way on
-			nIf++
+		case "undecided":
+			r.Undecided("A-fold", construct, p.Pos(u.pos), "(ii) "+u.detail)
+			return
+		case "guarded":
+			nGuarded++
+		case "cachebuild":
+			cache = true
 		}
 	}
-	if nIf == 0 {
-		r.Undecided("A-fold", construct, site, fmt.Sprintf("(ii) the result of Date.After in %s does not feed a branch directly", FuncKey(fn)))
+	if cache {
+		c07CacheConsumers(cx, r, f, construct, site)
 		return
 	}
-	// paths on which the query time is known zero are unbounded by design
-	for _, e := range c07IfEdges(fn, func(v ssa.Value) bool {
-		c, ok := v.(*ssa.Call)
-		if !ok {
-			return false
-		}
-		cs := CallSite{fn, c}
-		n := cs.MethodName()
-		if n != "IsZero" && n != "IsAnyZero" {
-			return false
-		}
-		args := cs.Args()
-		return len(args) == 1 && c07IsTimeType(c07Deref(args[0].Type())) && c07DependsOn(args[0], isTimeInput)
-	}) {
-		removed[e] = true
-	}
-	if c07Reach(c07DefBlock(fn, f.handle), f.head, removed) {
-		r.Violation("A-fold", construct, site, fmt.Sprintf("(ii) in %s a path reaches the claim-type switch without having passed `Date.After(at)` on its false edge (and without the time being known zero): claims newer than the query time are folded", FuncKey(fn)))
-		return
-	}
-	r.OK("A-fold", construct, site, fmt.Sprintf("(ii) every path to the switch passes the false edge of claim.Date.After(<query time>) (%d test(s)), or a time-is-zero edge", nIf))
+	r.OK("A-fold", construct, site, fmt.Sprintf("(ii) %s applies one claim handed in by its caller; all %d static call(s) lie behind the false edge of claim.Date.After(<query time>) in the caller", FuncKey(fn), nGuarded))
 }
 
 func c07IsParam(v ssa.Value) bool { _, ok := v.(*ssa.Parameter); return ok }
@@ -634,13 +793,9 @@ func c07IsParam(v ssa.Value) bool { _, ok := v.(*ssa.Parameter); return ok }
 func c07CacheConsumers(cx *c07Ctx, r *Reporter, f *c07Fold, construct, site string) {
 	p := cx.p
 	fn := f.fn
-	recv := fn.Signature.Recv()
-	var cacheT *types.Named
-	if recv != nil {
-		cacheT = NamedOf(recv.Type())
-	}
+	cacheT := c07StepCacheType(fn)
 	if cacheT == nil {
-		r.Undecided("A-fold", construct, site, fmt.Sprintf("(ii) %s folds one claim without a time bound and has no named receiver type to identify the cache it builds", FuncKey(fn)))
+		r.Undecided("A-fold", construct, site, fmt.Sprintf("(ii) %s folds one claim without a time bound (nor do its callers have one) and has no receiver / parameter of a named map type to identify the cache it builds", FuncKey(fn)))
 		return
 	}
 	rel := RelPkg(fn.Pkg.Pkg)
@@ -737,8 +892,9 @@ func c07CacheConsumers(cx *c07Ctx, r *Reporter, f *c07Fold, construct, site stri
 				isConsumer = true
 			}
 		}
-		// a builder is a method of the struct that owns the cache fields (or of the cache type) on the call chain to the fold step
-		okBuilder := false
+		// a builder is on the call chain to the fold step and is a method of the struct that owns the cache fields (or of
+		// the cache type), or cannot hand attribute values to a query because it returns nothing but errors
+		okBuilder := builders[g] && c07ReturnsNoValues(g)
 		if recv := g.Signature.Recv(); recv != nil && builders[g] {
 			if n := NamedOf(recv.Type()); n != nil {
 				if types.Identical(n, cacheT) {
@@ -756,6 +912,17 @@ func c07CacheConsumers(cx *c07Ctx, r *Reporter, f *c07Fold, construct, site stri
 			"touches the attribute-cache fields as the time-checked accessor or as part of the cache builder",
 			fmt.Sprintf("(ii) %s reads the %s cache fields directly; only the time-checked accessor may hand the cache to queries, otherwise a historical query sees present-time attributes", FuncKey(g), cacheT.Obj().Name()))
 	}
+}
+
+// c07ReturnsNoValues: fn's results are only errors.
+func c07ReturnsNoValues(fn *ssa.Function) bool {
+	res := fn.Signature.Results()
+	for i := 0; i < res.Len(); i++ {
+		if t := res.At(i).Type(); !isErrorType(t) {
+			return false
+		}
+	}
+	return true
 }
 
 // c07WriteOnly: the field address is used only to store a new value, or its
@@ -782,6 +949,11 @@ func c07WriteOnly(fa *ssa.FieldAddr) bool {
 			for _, lu := range *x.Referrers() {
 				switch y := lu.(type) {
 				case *ssa.DebugRef:
+				case *ssa.BinOp:
+					// `cache == nil` / `cache != nil`: nothing is read out of the cache
+					if (y.Op != token.EQL && y.Op != token.NEQ) || !(IsNilConst(y.X) || IsNilConst(y.Y)) {
+						return false
+					}
 				case *ssa.MapUpdate:
 					if y.Map != ssa.Value(x) || y.Value == ssa.Value(x) {
 						return false
@@ -947,35 +1119,41 @@ func c07Uniq(s []string) []string {
 // ---------------------------------------------------------------------------
 // clause (iii): deleted claims
 
-// c07DeletedGuard looks for `X.IsDeleted(handle.BlobRef)` tests in fn and
-// reports (found, guarded): guarded means target cannot be reached from the
-// handle's definition without taking the false edge of such a test.
-func c07DeletedGuard(fn *ssa.Function, handle ssa.Value, target *ssa.BasicBlock) (found, guarded bool) {
-	removed := map[c07Edge]bool{}
-	for _, c := range CallsIn(fn, false) {
-		if c.MethodName() != "IsDeleted" || c.Value() == nil {
-			continue
-		}
-		args := c.Args()
-		if len(args) != 2 {
-			continue
-		}
-		if t, ok := c.Value().Type().(*types.Basic); !ok || t.Kind() != types.Bool {
-			continue
-		}
-		h, ok := c07ClaimField(args[1], "BlobRef")
-		if !ok || h != handle {
-			continue
-		}
-		found = true
-		for _, e := range c07IfEdges(fn, func(v ssa.Value) bool { return v == ssa.Value(c.Value()) }) {
-			removed[c07Other(e)] = true
+// deletedGuard looks for `X.IsDeleted(handle.BlobRef)` tests in fn (also
+// inside boolean helpers / literals the claim is handed to) and reports
+// (found, guarded): guarded means target cannot be reached from the handle's
+// definition without taking the not-deleted edge of such a test.
+func (cx *c07Ctx) deletedGuard(fn *ssa.Function, handle ssa.Value, target *ssa.BasicBlock) (found, guarded bool) {
+	if cx.dg == nil {
+		cx.dg = &c07Guard{needHandle: true}
+		cx.dg.prims = func(fn *ssa.Function, handle ssa.Value) []c07Test {
+			var out []c07Test
+			for _, c := range CallsIn(fn, false) {
+				if c.MethodName() != "IsDeleted" || c.Value() == nil {
+					continue
+				}
+				args := c.Args()
+				if len(args) != 2 || !c07IsBool(c.Value().Type()) {
+					continue
+				}
+				h, ok := c07ClaimField(args[1], "BlobRef")
+				if !ok || h != handle {
+					continue
+				}
+				out = append(out, c07Test{c.Value(), false})
+			}
+			return out
 		}
 	}
-	if !found || len(removed) == 0 {
-		return found, false
+	tests := cx.dg.tests(fn, handle, 0)
+	if len(tests) == 0 {
+		return false, false
 	}
-	return true, !c07Reach(c07DefBlock(fn, handle), target, removed)
+	est := c07EstEdges(fn, tests)
+	if len(est) == 0 {
+		return true, false
+	}
+	return true, !c07Reach(c07DefBlock(fn, handle), target, est)
 }
 
 type c07Src struct {
@@ -987,7 +1165,7 @@ type c07Src struct {
 
 func c07FoldDeleted(cx *c07Ctx, r *Reporter, f *c07Fold, site string) {
 	p := cx.p
-	found, guarded := c07DeletedGuard(f.fn, f.handle, f.head)
+	found, guarded := cx.deletedGuard(f.fn, f.handle, f.head)
 	if guarded {
 		r.OK("A-fold", f.key+"#deleted", site, "(iii) an IsDeleted(claim.BlobRef) skip lies on every path to the switch")
 		return
@@ -1242,7 +1420,7 @@ func (t *c07Tracer) traceAppended(c *ssa.Call, depth int) {
 		return
 	}
 	for _, h := range handles {
-		if found, guarded := c07DeletedGuard(c.Parent(), h, c.Block()); found && guarded {
+		if found, guarded := t.cx.deletedGuard(c.Parent(), h, c.Block()); found && guarded {
 			t.add("guarded", c.Parent(), c.Pos(), fmt.Sprintf("claims are filtered in %s: appended only behind an IsDeleted(claim.BlobRef) skip", FuncKey(c.Parent())))
 			continue
 		}
@@ -1286,16 +1464,93 @@ func (t *c07Tracer) traceParam(prm *ssa.Parameter, depth int) {
 		arg := args[idx]
 		if c07IsClaim(arg.Type()) {
 			h := originValue(arg)
-			if found, guarded := c07DeletedGuard(c.Fn, h, c.Block()); found && guarded {
+			if found, guarded := t.cx.deletedGuard(c.Fn, h, c.Block()); found && guarded {
 				t.add("guarded", c.Fn, c.Pos(), fmt.Sprintf("%s passes the claim on only behind an IsDeleted(claim.BlobRef) skip", FuncKey(c.Fn)))
 				continue
 			}
 		}
 		t.trace(arg, depth+1)
 	}
-	if n == 0 {
+	if n == 0 && c07Exported(fn) {
 		t.add("unknown", fn, prm.Pos(), FuncKey(fn)+" has no static caller")
 	}
+	// an unexported function that is never called, never used as a value and not reachable through an
+	// interface is dead code: no claims come this way
+}
+
+// appendClaimsScan counts the one-by-one appends of claims in fn's effective
+// body (fn and the module helpers / literals it calls that return a claim
+// list, depth 3) and checks that each lies behind the not-deleted edge of
+// IsDeleted(claim.BlobRef), in the function holding the append or, for a
+// claim the helper was handed as a parameter, at the helper's call.
+func (cx *c07Ctx) appendClaimsScan(fn *ssa.Function, depth int, guardedAtCall func(prm *ssa.Parameter) bool) (appends, delegations int, bad string, badPos token.Pos) {
+	for _, c := range CallsIn(fn, false) {
+		c := c
+		call := c.Value()
+		if call == nil {
+			continue
+		}
+		if c.MethodName() == "AppendClaims" {
+			delegations++
+			continue
+		}
+		bi, ok := c.Common().Value.(*ssa.Builtin)
+		if !ok {
+			callee := c.Callee()
+			if callee == nil || callee == fn || callee.Blocks == nil || depth >= 3 || !(InModule(callee) || callee.Parent() != nil) {
+				continue
+			}
+			res := callee.Signature.Results()
+			carries := false
+			for i := 0; i < res.Len(); i++ {
+				if c07IsClaimSlice(res.At(i).Type()) {
+					carries = true
+				}
+			}
+			if !carries {
+				continue
+			}
+			a, d, b, bp := cx.appendClaimsScan(callee, depth+1, func(prm *ssa.Parameter) bool {
+				idx := c07ParamIndex(callee, prm)
+				if idx < 0 || idx >= len(c.Args()) {
+					return false
+				}
+				h := originValue(c.Args()[idx])
+				if found, guarded := cx.deletedGuard(fn, h, c.Block()); found && guarded {
+					return true
+				}
+				if q, isPrm := h.(*ssa.Parameter); isPrm && guardedAtCall != nil {
+					return guardedAtCall(q)
+				}
+				return false
+			})
+			appends += a
+			delegations += d
+			if b != "" {
+				bad, badPos = b, bp
+			}
+			continue
+		}
+		if bi.Name() != "append" || !c07IsClaimSlice(call.Type()) {
+			continue
+		}
+		handles, whole := c07Appended(call)
+		if whole != nil {
+			bad, badPos = "appends a whole slice of claims; this rule only follows one-by-one appends", call.Pos()
+			continue
+		}
+		for _, h := range handles {
+			appends++
+			if found, guarded := cx.deletedGuard(fn, h, call.Block()); found && guarded {
+				continue
+			}
+			if prm, isPrm := h.(*ssa.Parameter); isPrm && guardedAtCall != nil && guardedAtCall(prm) {
+				continue
+			}
+			bad, badPos = "appends a claim to its result on a path that has not taken the not-deleted edge of IsDeleted(claim.BlobRef)", call.Pos()
+		}
+	}
+	return
 }
 
 // c07RuleAppendClaims: the claim sources the index path folds.
@@ -1312,33 +1567,7 @@ func c07RuleAppendClaims(cx *c07Ctx, r *Reporter) {
 		}
 		n++
 		construct := FuncKey(fn) + "#deleted-skip"
-		appends, delegations, bad := 0, 0, ""
-		var badPos token.Pos
-		for _, c := range CallsIn(fn, false) {
-			call := c.Value()
-			if call == nil {
-				continue
-			}
-			if c.MethodName() == "AppendClaims" {
-				delegations++
-				continue
-			}
-			bi, ok := c.Common().Value.(*ssa.Builtin)
-			if !ok || bi.Name() != "append" || !c07IsClaimSlice(call.Type()) {
-				continue
-			}
-			handles, whole := c07Appended(call)
-			if whole != nil {
-				bad, badPos = "appends a whole slice of claims; this rule only follows one-by-one appends", call.Pos()
-				continue
-			}
-			for _, h := range handles {
-				appends++
-				if found, guarded := c07DeletedGuard(fn, h, call.Block()); !(found && guarded) {
-					bad, badPos = "appends a claim to its result on a path that has not taken the not-deleted edge of IsDeleted(claim.BlobRef)", call.Pos()
-				}
-			}
-		}
+		appends, delegations, bad, badPos := cx.appendClaimsScan(fn, 0, nil)
 		switch {
 		case strings.HasPrefix(bad, "appends a whole"):
 			r.Undecided("A-fold", construct, p.Pos(badPos), fmt.Sprintf("(iii) %s %s", FuncKey(fn), bad))
@@ -1488,7 +1717,7 @@ func c07RuleOrder(cx *c07Ctx, r *Reporter, folds []*c07Fold) {
 				hasTime = true
 			}
 		}
-		if !hasTime && f.fn.Signature.Recv() != nil && NamedOf(f.fn.Signature.Recv().Type()) != nil {
+		if !hasTime && c07StepCacheType(f.fn) != nil {
 			steps = append(steps, f)
 		}
 	}
@@ -1501,13 +1730,31 @@ func c07RuleOrder(cx *c07Ctx, r *Reporter, folds []*c07Fold) {
 		_, owner, name, ok := c07FieldRef(v)
 		return ok && name == cx.claimsField && types.Identical(owner, cx.pmT)
 	}
+	// claimsList: the PermanodeMeta claim list, or a parameter of a helper to which every static caller passes it
+	var claimsList func(v ssa.Value, d int) bool
+	claimsList = func(v ssa.Value, d int) bool {
+		if isClaimsLoad(v) {
+			return true
+		}
+		prm, ok := originValue(v).(*ssa.Parameter)
+		if !ok || d >= 3 || !c07IsClaimSlice(prm.Type()) || !cx.followable(prm.Parent()) || c07Exported(prm.Parent()) {
+			return false
+		}
+		idx := c07ParamIndex(prm.Parent(), prm)
+		for _, c := range cx.callers(prm.Parent()) {
+			if idx >= len(c.Args()) || !claimsList(c.Args()[idx], d+1) {
+				return false
+			}
+		}
+		return true
+	}
 	lenOfClaims := func(v ssa.Value) bool {
 		c, ok := v.(*ssa.Call)
 		if !ok {
 			return false
 		}
 		bi, ok := c.Call.Value.(*ssa.Builtin)
-		return ok && bi.Name() == "len" && isClaimsLoad(c.Call.Args[0])
+		return ok && bi.Name() == "len" && claimsList(c.Call.Args[0], 0)
 	}
 	lenMinus := func(v ssa.Value, k int64) bool {
 		sub, ok := v.(*ssa.BinOp)
@@ -1517,8 +1764,66 @@ func c07RuleOrder(cx *c07Ctx, r *Reporter, folds []*c07Fold) {
 		n, ok := ConstInt(sub.Y)
 		return ok && n == k
 	}
+	// the date-order guard: fewer than two claims, or ClaimPtrsByDate(Claims).Less(n-2, n-1)
+	var accepted []string
+	og := &c07Guard{}
+	og.prims = func(g *ssa.Function, _ ssa.Value) []c07Test {
+		var out []c07Test
+		for _, b := range g.Blocks {
+			for _, in := range b.Instrs {
+				switch x := in.(type) {
+				case *ssa.BinOp:
+					n, ok := ConstInt(x.Y)
+					if !ok || !lenOfClaims(x.X) {
+						continue
+					}
+					fewTrue := (x.Op == token.LSS && n <= 2) || (x.Op == token.LEQ && n <= 1) || (x.Op == token.EQL && n <= 1)
+					fewFalse := (x.Op == token.GEQ && n <= 2) || (x.Op == token.GTR && n <= 1)
+					if fewTrue {
+						out = append(out, c07Test{x, true})
+						accepted = append(accepted, "fewer than two claims")
+					} else if fewFalse {
+						out = append(out, c07Test{x, false})
+						accepted = append(accepted, "fewer than two claims")
+					}
+				case *ssa.Call:
+					cs := CallSite{g, x}
+					if cs.MethodName() != "Less" || cs.Callee() == nil {
+						continue
+					}
+					args := cs.Args()
+					if len(args) != 3 || !c07DependsOn(args[0], isClaimsLoad) || !lenMinus(args[1], 2) || !lenMinus(args[2], 1) {
+						continue
+					}
+					if !IsNamed(cs.RecvType(), c07CamtypesPath, "ClaimPtrsByDate") {
+						continue
+					}
+					out = append(out, c07Test{x, true})
+					accepted = append(accepted, "ClaimPtrsByDate.Less(n-2, n-1)")
+				}
+			}
+		}
+		return out
+	}
+	// orderGuarded: block of g is reached only over an establishing edge of the guard, in g or
+	// - when g is a helper - at every static call of g
+	var orderGuarded func(g *ssa.Function, blk *ssa.BasicBlock, depth int) bool
+	orderGuarded = func(g *ssa.Function, blk *ssa.BasicBlock, depth int) bool {
+		if est := c07EstEdges(g, og.tests(g, nil, 0)); len(est) > 0 && !c07Reach(g.Blocks[0], blk, est) {
+			return true
+		}
+		if depth >= 3 || !cx.followable(g) || c07Exported(g) {
+			return false
+		}
+		for _, c := range cx.callers(g) {
+			if !orderGuarded(c.Fn, c.Block(), depth+1) {
+				return false
+			}
+		}
+		return true
+	}
 	for _, step := range steps {
-		cacheT := NamedOf(step.fn.Signature.Recv().Type())
+		cacheT := c07StepCacheType(step.fn)
 		holdsCache := func(t types.Type) bool {
 			if types.Identical(t, cacheT) {
 				return true
@@ -1526,26 +1831,31 @@ func c07RuleOrder(cx *c07Ctx, r *Reporter, folds []*c07Fold) {
 			m, ok := t.Underlying().(*types.Map)
 			return ok && types.Identical(m.Elem(), cacheT)
 		}
-		// appliers: the functions calling the step with their own claim parameter
-		appliers := map[*ssa.Function]int{} // -> index of the claim parameter
-		for _, c := range p.StaticCallers(step.fn) {
-			g := c.Fn
-			if g.Parent() != nil {
-				continue
-			}
-			for i, a := range c.Args() {
-				if prm, ok := originValue(a).(*ssa.Parameter); ok && c07IsClaim(prm.Type()) && prm.Parent() == g {
-					for j, q := range g.Params {
-						if q == prm {
-							appliers[g] = j
-						}
+		// appliers: the step and the functions passing their own claim parameter on to an applier
+		appliers := map[*ssa.Function]int{step.fn: c07ParamIndex(step.fn, step.handle.(*ssa.Parameter))} // -> index of the claim parameter
+		for round := 0; round < 5; round++ {
+			grew := false
+			for a, idx := range appliers {
+				for _, c := range p.StaticCallers(a) {
+					g := c.Fn
+					if g.Parent() != nil || idx >= len(c.Args()) {
+						continue
+					}
+					if _, known := appliers[g]; known {
+						continue
+					}
+					if prm, ok := originValue(c.Args()[idx]).(*ssa.Parameter); ok && c07IsClaim(prm.Type()) && prm.Parent() == g {
+						appliers[g] = c07ParamIndex(g, prm)
+						grew = true
 					}
 				}
-				_ = i
+			}
+			if !grew {
+				break
 			}
 		}
-		if len(appliers) == 0 {
-			r.Undecided("A-order", FuncKey(step.fn)+"#appliers", p.Pos(step.fn.Pos()), "no function passes its own claim parameter to the cache step; cannot find the cache maintenance code")
+		if len(appliers) == 1 && len(cx.callers(step.fn)) == 0 {
+			r.Undecided("A-order", FuncKey(step.fn)+"#appliers", p.Pos(step.fn.Pos()), "nothing calls the cache step; cannot find the cache maintenance code")
 			continue
 		}
 		type site struct {
@@ -1553,65 +1863,137 @@ func c07RuleOrder(cx *c07Ctx, r *Reporter, folds []*c07Fold) {
 			kind string // incremental | rebuild
 		}
 		var sites []site
-		rebuilders := map[*ssa.Function]bool{}
-		fixers := map[*ssa.Function]bool{}
-		for a, idx := range appliers {
-			for _, c := range p.StaticCallers(a) {
-				g := TopFunc(c.Fn)
-				if g.Pkg != nil && IsTestSupportPkg(RelPkg(g.Pkg.Pkg)) {
+		siteKind := map[ssa.Instruction]string{}
+		rebuildFns := map[*ssa.Function]bool{}
+		var applierList []*ssa.Function
+		for a := range appliers {
+			applierList = append(applierList, a)
+		}
+		sort.Slice(applierList, func(i, j int) bool { return FuncKey(applierList[i]) < FuncKey(applierList[j]) })
+		for _, a := range applierList {
+			idx := appliers[a]
+			for _, c := range cx.callers(a) {
+				if idx >= len(c.Args()) {
 					continue
 				}
 				arg := originValue(c.Args()[idx])
+				if prm, ok := arg.(*ssa.Parameter); ok && prm.Parent() == c.Fn {
+					if _, passOn := appliers[c.Fn]; passOn {
+						continue // hands its own claim parameter on: the sites are its callers
+					}
+				}
 				construct := FuncKey(c.Fn) + "#cache-update"
 				ld, ok := arg.(*ssa.UnOp)
 				var ia *ssa.IndexAddr
 				if ok && ld.Op == token.MUL {
 					ia, _ = ld.X.(*ssa.IndexAddr)
 				}
-				if ia == nil || !isClaimsLoad(ia.X) {
+				if ia == nil || !claimsList(ia.X, 0) {
 					r.Undecided("A-order", construct, p.Pos(c.Pos()), fmt.Sprintf("%s feeds the attribute cache a claim that is not an element of PermanodeMeta.%s; cannot tell whether date order is respected", FuncKey(c.Fn), cx.claimsField))
 					continue
 				}
 				switch {
 				case lenMinus(ia.Index, 1):
 					sites = append(sites, site{c, "incremental"})
-					fixers[g] = true
+					siteKind[c.Instr] = "incremental"
 				case inLoop(c.Block()):
 					sites = append(sites, site{c, "rebuild"})
-					rebuilders[g] = true
+					siteKind[c.Instr] = "rebuild"
+					rebuildFns[TopFunc(c.Fn)] = true
 				default:
 					r.Undecided("A-order", construct, p.Pos(c.Pos()), fmt.Sprintf("%s feeds the cache one claim that is neither the last one nor part of a loop over all claims", FuncKey(c.Fn)))
 				}
 			}
 		}
-		isFixOrRebuild := func(c CallSite) bool {
-			g := c.Callee()
-			return g != nil && (fixers[g] || rebuilders[g])
+		// performers: a call of such a function is a fix-up (rebuild) on every path through it.
+		// A function holding the loop that refolds all claims is one by definition (no claims: nothing to fold);
+		// any other function is one when each path from its entry to a return passes a fix-up site or calls a performer.
+		fixPerf := map[*ssa.Function]bool{}
+		rebPerf := map[*ssa.Function]bool{}
+		for g := range rebuildFns {
+			fixPerf[g], rebPerf[g] = true, true
+		}
+		cands := map[*ssa.Function]bool{}
+		for _, s := range sites {
+			cands[TopFunc(s.c.Fn)] = true
+		}
+		for d := 0; d < 4; d++ {
+			for g := range cands {
+				for _, c := range cx.callers(g) {
+					cands[TopFunc(c.Fn)] = true
+				}
+			}
+		}
+		stopFor := func(g *ssa.Function, perf map[*ssa.Function]bool, rebuildOnly bool) func(ssa.Instruction) bool {
+			return func(in ssa.Instruction) bool {
+				if k, ok := siteKind[in]; ok && (!rebuildOnly || k == "rebuild") {
+					return true
+				}
+				ci, ok := in.(ssa.CallInstruction)
+				if !ok {
+					return false
+				}
+				if _, isCall := in.(*ssa.Call); !isCall {
+					return false // go / defer do not run here
+				}
+				cal := CallSite{g, ci}.Callee()
+				return cal != nil && perf[cal]
+			}
+		}
+		for round := 0; round < 5; round++ {
+			grew := false
+			for g := range cands {
+				if g.Blocks == nil || len(g.Blocks[0].Instrs) == 0 {
+					continue
+				}
+				first := g.Blocks[0].Instrs[0]
+				if !rebPerf[g] {
+					st := stopFor(g, rebPerf, true)
+					if st(first) || len(LeakingExits(PathQuery{Start: first, Stop: st, IgnorePanics: true})) == 0 {
+						rebPerf[g], grew = true, true
+					}
+				}
+				if !fixPerf[g] {
+					st := stopFor(g, fixPerf, false)
+					if st(first) || len(LeakingExits(PathQuery{Start: first, Stop: st, IgnorePanics: true})) == 0 {
+						fixPerf[g], grew = true, true
+					}
+				}
+			}
+			if !grew {
+				break
+			}
 		}
 		sort.Slice(sites, func(i, j int) bool {
 			return FuncKey(sites[i].c.Fn)+sites[i].kind < FuncKey(sites[j].c.Fn)+sites[j].kind
 		})
+		var partial []string // functions holding a fix-up site that are not performers
 		for _, s := range sites {
 			g := s.c.Fn
+			if !fixPerf[TopFunc(g)] {
+				partial = append(partial, FuncKey(TopFunc(g)))
+			}
 			switch s.kind {
 			case "rebuild":
 				construct := FuncKey(g) + "#rebuild"
 				// sorted before folding
-				sorted := false
-				for _, c := range CallsIn(g, false) {
+				isSort := func(in ssa.Instruction) bool {
+					ci, ok := in.(*ssa.Call)
+					if !ok {
+						return false
+					}
+					c := CallSite{in.Parent(), ci}
 					cal := c.Callee()
 					if cal == nil || cal.Pkg == nil {
-						continue
+						return false
 					}
 					pk := cal.Pkg.Pkg.Path()
 					if !((pk == "sort" && (cal.Name() == "Sort" || cal.Name() == "Stable" || cal.Name() == "Slice" || cal.Name() == "SliceStable")) || (pk == "slices" && strings.HasPrefix(cal.Name(), "Sort"))) {
-						continue
+						return false
 					}
-					if len(c.Args()) > 0 && c07DependsOn(c.Args()[0], isClaimsLoad) && Precedes(c.Instr, s.c.Instr) {
-						sorted = true
-					}
+					return len(c.Args()) > 0 && c07DependsOn(c.Args()[0], isClaimsLoad)
 				}
-				if !sorted {
+				if !cx.before(s.c.Instr, isSort, 0) {
 					r.Violation("A-order", construct, p.Pos(s.c.Pos()), fmt.Sprintf("%s refolds all claims into the attribute cache without sorting PermanodeMeta.%s first: claims that arrived out of date order are applied in arrival order", FuncKey(g), cx.claimsField))
 					continue
 				}
@@ -1622,130 +2004,92 @@ func c07RuleOrder(cx *c07Ctx, r *Reporter, folds []*c07Fold) {
 					if !holdsCache(st.Field(i).Type()) {
 						continue
 					}
-					reset := false
-					for _, sto := range cx.storesToField(c07FieldKey(cx.pmT, st.Field(i).Name())) {
-						if sto.Parent() != g {
-							continue
+					fname := st.Field(i).Name()
+					isReset := func(in ssa.Instruction) bool {
+						sto, ok := in.(*ssa.Store)
+						if !ok {
+							return false
 						}
-						if _, fresh := sto.Val.(*ssa.MakeMap); fresh && Precedes(sto, s.c.Instr) {
-							reset = true
+						fa, ok := sto.Addr.(*ssa.FieldAddr)
+						if !ok || !types.Identical(c07Deref(fa.X.Type()), cx.pmT) || fieldName(fa.X.Type(), fa.Field) != fname {
+							return false
 						}
+						_, fresh := originValue(sto.Val).(*ssa.MakeMap)
+						return fresh
 					}
-					if !reset {
-						missing = st.Field(i).Name()
+					if !cx.before(s.c.Instr, isReset, 0) {
+						missing = fname
 					}
 				}
 				if missing != "" {
 					r.Violation("A-order", construct, p.Pos(s.c.Pos()), fmt.Sprintf("%s refolds all claims without first replacing cache field %s by a fresh map: old values survive and add-attribute values are duplicated", FuncKey(g), missing))
 					continue
 				}
-				r.OK("A-order", construct, p.Pos(s.c.Pos()), "the claim list is sorted and every cache field replaced by a fresh map before the loop that refolds all claims")
+				r.OK("A-order", construct, p.Pos(s.c.Pos()), "the claim list is sorted and every cache field replaced by a fresh map before the loop that refolds all claims (helpers called before the loop, and the callers of a helper holding the loop, are followed)")
 			case "incremental":
 				construct := FuncKey(g) + "#incremental"
-				removed := map[c07Edge]bool{}
-				var accepted []string
-				for _, b := range g.Blocks {
-					for _, in := range b.Instrs {
-						switch x := in.(type) {
-						case *ssa.BinOp:
-							n, ok := ConstInt(x.Y)
-							if !ok || !lenOfClaims(x.X) {
-								continue
-							}
-							fewTrue := (x.Op == token.LSS && n <= 2) || (x.Op == token.LEQ && n <= 1) || (x.Op == token.EQL && n <= 1)
-							fewFalse := (x.Op == token.GEQ && n <= 2) || (x.Op == token.GTR && n <= 1)
-							for _, e := range c07IfEdges(g, func(v ssa.Value) bool { return v == ssa.Value(x) }) {
-								if fewTrue {
-									removed[e] = true
-									accepted = append(accepted, "fewer than two claims")
-								} else if fewFalse {
-									removed[c07Other(e)] = true
-									accepted = append(accepted, "fewer than two claims")
-								}
-							}
-						case *ssa.Call:
-							cs := CallSite{g, x}
-							if cs.MethodName() != "Less" || cs.Callee() == nil {
-								continue
-							}
-							args := cs.Args()
-							if len(args) != 3 || !c07DependsOn(args[0], isClaimsLoad) || !lenMinus(args[1], 2) || !lenMinus(args[2], 1) {
-								continue
-							}
-							if !IsNamed(cs.RecvType(), c07CamtypesPath, "ClaimPtrsByDate") {
-								continue
-							}
-							for _, e := range c07IfEdges(g, func(v ssa.Value) bool { return v == ssa.Value(x) }) {
-								removed[e] = true
-								accepted = append(accepted, "ClaimPtrsByDate.Less(n-2, n-1)")
-							}
-						}
-					}
-				}
-				if c07Reach(g.Blocks[0], s.c.Block(), removed) {
+				accepted = nil
+				if !orderGuarded(g, s.c.Block(), 0) {
 					r.Violation("A-order", construct, p.Pos(s.c.Pos()), fmt.Sprintf("%s applies only the last claim to the attribute cache on a path where it is not known that the last two claims are in date order (accepted edges found: %v): a claim arriving with an older date is applied after newer ones", FuncKey(g), c07Uniq(accepted)))
 					continue
 				}
-				leaks := LeakingExits(PathQuery{
-					Start: g.Blocks[0].Instrs[0],
-					Stop: func(in ssa.Instruction) bool {
-						ci, ok := in.(ssa.CallInstruction)
-						if !ok {
-							return false
-						}
-						c := CallSite{g, ci}
-						if cal := c.Callee(); cal != nil {
-							if _, isApplier := appliers[cal]; isApplier || rebuilders[cal] {
-								return true
-							}
-						}
-						return false
-					},
-					IgnorePanics: true,
-				})
-				if len(leaks) > 0 {
-					r.Violation("A-order", construct, p.Pos(leaks[0].Exit.Pos()), fmt.Sprintf("%s can return without either applying the last claim or rebuilding the cache", FuncKey(g)))
-					continue
-				}
-				r.OK("A-order", construct, p.Pos(s.c.Pos()), fmt.Sprintf("the last claim alone is applied only behind %v; every other path rebuilds", c07Uniq(accepted)))
+				r.OK("A-order", construct, p.Pos(s.c.Pos()), fmt.Sprintf("the last claim alone is applied only behind %v; that every other path rebuilds is checked where the claim list grows (#claims-append)", c07Uniq(accepted)))
 			}
 		}
 		// every growth of the claim list is followed by a fix-up unless building
 		buildingFlags := map[string]bool{}
+		assumeBuilding := func(cond ssa.Value) (bool, bool) {
+			_, owner, name, ok := c07FieldRef(cond)
+			if !ok {
+				return false, false
+			}
+			if !c07IsBool(cond.Type()) {
+				return false, false
+			}
+			buildingFlags[c07FieldKey(owner, name)] = true
+			return true, false // checked below: the flag is cleared only after a rebuild of every permanode
+		}
+		// fixedAfter: every path from start to an exit of its function passes a fix-up; for a helper
+		// the paths continue after each of its static calls
+		var fixedAfter func(start ssa.Instruction, depth int) (bool, token.Pos)
+		fixedAfter = func(start ssa.Instruction, depth int) (bool, token.Pos) {
+			g := start.Parent()
+			leaks := LeakingExits(PathQuery{Start: start, Stop: stopFor(g, fixPerf, false), Assume: assumeBuilding, IgnorePanics: true})
+			if len(leaks) == 0 {
+				return true, token.NoPos
+			}
+			if depth >= 3 || !cx.followable(g) || c07Exported(g) {
+				return false, leaks[0].Exit.Pos()
+			}
+			for _, c := range cx.callers(g) {
+				if _, isCall := c.Instr.(*ssa.Call); !isCall {
+					return false, c.Pos()
+				}
+				if ok, pos := fixedAfter(c.Instr, depth+1); !ok {
+					return false, pos
+				}
+			}
+			return true, token.NoPos
+		}
 		for _, sto := range cx.storesToField(c07FieldKey(cx.pmT, cx.claimsField)) {
 			g := sto.Parent()
 			if g.Pkg != nil && IsTestSupportPkg(RelPkg(TopFunc(g).Pkg.Pkg)) {
 				continue
 			}
 			construct := FuncKey(g) + "#claims-append"
-			if rebuilders[TopFunc(g)] {
+			if rebuildFns[TopFunc(g)] {
 				r.OKTable("A-order", construct, p.Pos(sto.Pos()), "store inside the cache rebuild itself")
 				continue
 			}
-			leaks := LeakingExits(PathQuery{
-				Start: sto,
-				Stop: func(in ssa.Instruction) bool {
-					ci, ok := in.(ssa.CallInstruction)
-					return ok && isFixOrRebuild(CallSite{g, ci})
-				},
-				Assume: func(cond ssa.Value) (bool, bool) {
-					_, owner, name, ok := c07FieldRef(cond)
-					if !ok {
-						return false, false
-					}
-					if b, isBool := cond.Type().Underlying().(*types.Basic); !isBool || b.Kind() != types.Bool {
-						return false, false
-					}
-					buildingFlags[c07FieldKey(owner, name)] = true
-					return true, false // checked below: the flag is cleared only after a rebuild of every permanode
-				},
-				IgnorePanics: true,
-			})
-			if len(leaks) > 0 {
-				r.Violation("A-order", construct, p.Pos(leaks[0].Exit.Pos()), fmt.Sprintf("%s stores a new claim list into PermanodeMeta.%s and can return without a cache fix-up (fixupLastClaim/restoreInvariants): the cached attributes miss the claim, or Claims is left unsorted", FuncKey(g), cx.claimsField))
+			if ok, pos := fixedAfter(sto, 0); !ok {
+				extra := ""
+				if len(partial) > 0 {
+					extra = fmt.Sprintf(" (%v hold(s) a fix-up but can return without performing it, so calling it does not count)", c07Uniq(partial))
+				}
+				r.Violation("A-order", construct, p.Pos(pos), fmt.Sprintf("%s stores a new claim list into PermanodeMeta.%s and can return without a cache fix-up (applying the last claim in date order, or a rebuild)%s: the cached attributes miss the claim, or Claims is left unsorted", FuncKey(g), cx.claimsField, extra))
 				continue
 			}
-			r.OK("A-order", construct, p.Pos(sto.Pos()), "every path from the store to an exit calls the cache fix-up, or runs with the bulk-load flag set")
+			r.OK("A-order", construct, p.Pos(sto.Pos()), "every path from the store to an exit applies the last claim / rebuilds the cache (directly or through a function that does so on all its paths), or runs with the bulk-load flag set")
 		}
 		var flags []string
 		for k := range buildingFlags {
@@ -1766,7 +2110,7 @@ func c07RuleOrder(cx *c07Ctx, r *Reporter, folds []*c07Fold) {
 				ok = false
 				for _, c := range CallsIn(g, false) {
 					cal := c.Callee()
-					if cal == nil || !rebuilders[cal] {
+					if cal == nil || !rebPerf[cal] || len(c.Args()) == 0 {
 						continue
 					}
 					ex, isEx := originValue(c.Args()[0]).(*ssa.Extract)
@@ -1868,10 +2212,10 @@ func c07RuleOwn(cx *c07Ctx, r *Reporter, folds []*c07Fold) {
 	// the list of in-place updates, the map-flow summary = 17
 	defer r.Floor("A-own", 16)
 	for _, f := range folds {
-		if !c07IsParam(f.handle) || f.fn.Signature.Recv() == nil {
+		if !c07IsParam(f.handle) {
 			continue
 		}
-		n := NamedOf(f.fn.Signature.Recv().Type())
+		n := c07StepCacheType(f.fn)
 		if n == nil {
 			continue
 		}
@@ -4515,4 +4859,464 @@ func c07BlocksPos(fn *ssa.Function, blocks ...*ssa.BasicBlock) token.Pos {
 		return fn.Pos()
 	}
 	return best
+}
+
+// ---------------------------------------------------------------------------
+// effective bodies: helpers shared by all rules of C07
+//
+// A rule that looks for a test, a call or a store "in function F" looks in F's
+// effective body: F, the unexported helpers / literals F calls statically
+// (parameters standing for the caller's arguments), and - for a site that lies
+// in such a helper - the helper's static callers.
+
+// c07NonTestCallers lists the static call sites of fn outside test support.
+func (cx *c07Ctx) callers(fn *ssa.Function) []CallSite {
+	var out []CallSite
+	for _, c := range cx.p.StaticCallers(fn) {
+		t := TopFunc(c.Fn)
+		if t != nil && t.Pkg != nil && IsTestSupportPkg(RelPkg(t.Pkg.Pkg)) {
+			continue
+		}
+		out = append(out, c)
+	}
+	return out
+}
+
+// followable: every entry into fn is one of its static call sites (declared
+// function, never used as a value, not reachable through an interface).
+func (cx *c07Ctx) followable(fn *ssa.Function) bool {
+	if fn == nil || fn.Parent() != nil || fn.Blocks == nil || !InModule(fn) {
+		return false
+	}
+	if len(cx.p.FuncValueUses(fn)) > 0 {
+		return false
+	}
+	if fn.Signature.Recv() != nil && len(cx.p.InvokeSites(fn)) > 0 {
+		return false
+	}
+	return len(cx.callers(fn)) > 0
+}
+
+func c07ParamIndex(fn *ssa.Function, prm *ssa.Parameter) int {
+	for i, q := range fn.Params {
+		if q == prm {
+			return i
+		}
+	}
+	return -1
+}
+
+// c07HandleParam: the parameter of its function a claim handle is taken from
+// (the handle itself, or the container it is an element of); nil when the
+// claims originate in the function.
+func c07HandleParam(v ssa.Value) *ssa.Parameter {
+	for i := 0; i < 12 && v != nil; i++ {
+		switch x := v.(type) {
+		case *ssa.Parameter:
+			return x
+		case *ssa.ChangeType:
+			v = x.X
+		case *ssa.Convert:
+			v = x.X
+		case *ssa.MakeInterface:
+			v = x.X
+		case *ssa.ChangeInterface:
+			v = x.X
+		case *ssa.Slice:
+			v = x.X
+		case *ssa.Index:
+			v = x.X
+		case *ssa.IndexAddr:
+			v = x.X
+		case *ssa.Lookup:
+			v = x.X
+		case *ssa.Extract:
+			nx, ok := x.Tuple.(*ssa.Next)
+			if !ok {
+				return nil
+			}
+			rg, ok := nx.Iter.(*ssa.Range)
+			if !ok {
+				return nil
+			}
+			v = rg.X
+		case *ssa.Call:
+			// element accessor of a claims container interface
+			if x.Call.IsInvoke() && c07IsClaim(x.Type()) {
+				v = x.Call.Value
+				continue
+			}
+			return nil
+		case *ssa.Alloc:
+			sts := storesTo(x)
+			if len(sts) != 1 {
+				return nil
+			}
+			v = sts[0].Val
+		case *ssa.UnOp:
+			if x.Op != token.MUL {
+				return nil
+			}
+			if o := originValue(x); o != ssa.Value(x) {
+				v = o
+				continue
+			}
+			v = x.X
+		default:
+			return nil
+		}
+	}
+	return nil
+}
+
+// c07FoldOwner names a fold: the unique function in which the folded claims
+// originate as something other than a parameter when every static call chain
+// from the switch leads to that one function (a loop body or a switch moved
+// into a helper keeps the name of the loop's function); otherwise the
+// outermost pure delegate above the function holding the switch (a wrapper
+// that only passes its own parameters on); otherwise that function itself.
+func (cx *c07Ctx) foldOwner(f *c07Fold) *ssa.Function {
+	fn := f.fn
+	top := TopFunc(fn)
+	prm := c07HandleParam(f.handle)
+	if prm == nil || prm.Parent() != fn || fn.Parent() != nil {
+		return top
+	}
+	cur, curPrm := fn, prm
+	delegateTop, pure := fn, true
+	// iterTop: the first function up the chain that does not merely pass its own claim parameter on (it selects or
+	// iterates over the claims); the name when the origin is not unique
+	var iterTop *ssa.Function
+	if ssa.Value(prm) != f.handle {
+		iterTop = fn
+	}
+	fallback := func() *ssa.Function {
+		if iterTop != nil {
+			return iterTop
+		}
+		return delegateTop
+	}
+	for d := 0; d < 4; d++ {
+		if !cx.followable(cur) || c07Exported(cur) {
+			return fallback()
+		}
+		idx := c07ParamIndex(cur, curPrm)
+		sites := cx.callers(cur)
+		if idx < 0 || len(sites) == 0 {
+			return fallback()
+		}
+		g := TopFunc(sites[0].Fn)
+		var next *ssa.Parameter
+		nOrigin, nPlain := 0, 0
+		for _, c := range sites {
+			if TopFunc(c.Fn) != g || idx >= len(c.Args()) {
+				return fallback()
+			}
+			av := originValue(c.Args()[idx])
+			if _, plain := av.(*ssa.Parameter); plain {
+				nPlain++
+			}
+			q := c07HandleParam(av)
+			switch {
+			case q == nil:
+				nOrigin++
+			case q.Parent() != g:
+				return fallback()
+			case next == nil:
+				next = q
+			case next != q:
+				return fallback()
+			}
+		}
+		if nOrigin == len(sites) {
+			return g
+		}
+		if nOrigin > 0 {
+			return fallback()
+		}
+		if iterTop == nil && nPlain == 0 {
+			iterTop = g
+		}
+		if pure && len(sites) == 1 && c07OnlyOwnParams(sites[0]) {
+			delegateTop = g
+		} else {
+			pure = false
+		}
+		cur, curPrm = g, next
+	}
+	return fallback()
+}
+
+// c07OnlyOwnParams: every argument of the call is a parameter of the caller.
+func c07OnlyOwnParams(c CallSite) bool {
+	for _, a := range c.Args() {
+		prm, ok := originValue(a).(*ssa.Parameter)
+		if !ok || prm.Parent() != c.Fn {
+			return false
+		}
+	}
+	return true
+}
+
+// c07StepCacheType: the named map type a one-claim fold step accumulates into:
+// its receiver, or its only parameter of a named map type.
+func c07StepCacheType(fn *ssa.Function) *types.Named {
+	if recv := fn.Signature.Recv(); recv != nil {
+		if n := NamedOf(recv.Type()); n != nil {
+			return n
+		}
+	}
+	var found *types.Named
+	for _, prm := range fn.Params {
+		n := NamedOf(prm.Type())
+		if n == nil {
+			continue
+		}
+		if _, isMap := n.Underlying().(*types.Map); !isMap {
+			continue
+		}
+		if found != nil && !types.Identical(found, n) {
+			return nil
+		}
+		found = n
+	}
+	return found
+}
+
+// ---- guard tests, also through boolean helpers
+
+// c07Test: the guard is established on the edge where v == est.
+type c07Test struct {
+	v   ssa.Value
+	est bool
+}
+
+type c07GuardMemoKey struct {
+	fn  *ssa.Function
+	idx int
+	x   bool
+}
+
+// c07Guard describes one kind of skip (claim newer than the query time, claim
+// deleted, last two claims in date order, recursive deletion test).
+type c07Guard struct {
+	// prims lists the primitive tests fn makes about handle (nil handle: the
+	// guard is not about one claim).
+	prims      func(fn *ssa.Function, handle ssa.Value) []c07Test
+	needHandle bool
+	// callOK vets the call of a helper whose body holds the tests.
+	callOK func(c CallSite, callee *ssa.Function) bool
+	memo   map[c07GuardMemoKey]int // 1 yes, 2 no, 3 in progress
+}
+
+func c07IsBool(t types.Type) bool {
+	b, ok := t.Underlying().(*types.Basic)
+	return ok && b.Kind() == types.Bool
+}
+
+// tests: the primitive tests of fn, plus calls of boolean helpers / literals
+// whose result X implies that the guard was established inside the helper.
+func (g *c07Guard) tests(fn *ssa.Function, handle ssa.Value, depth int) []c07Test {
+	out := g.prims(fn, handle)
+	if depth >= 3 {
+		return out
+	}
+	for _, c := range CallsIn(fn, false) {
+		call := c.Value()
+		if call == nil || !c07IsBool(call.Type()) {
+			continue
+		}
+		callee := c.Callee()
+		if callee == nil || callee == fn || callee.Blocks == nil || !(InModule(callee) || callee.Parent() != nil) {
+			continue
+		}
+		idx := -1
+		var h2 ssa.Value
+		if g.needHandle {
+			for i, a := range c.Args() {
+				if i < len(callee.Params) && handle != nil && originValue(a) == handle {
+					idx, h2 = i, callee.Params[i]
+				}
+			}
+			if idx < 0 {
+				if callee.Parent() == nil {
+					continue
+				}
+				h2 = handle // a literal sees the captured claim
+			}
+		}
+		if g.callOK != nil && !g.callOK(c, callee) {
+			continue
+		}
+		for _, x := range []bool{true, false} {
+			if g.implies(callee, idx, h2, x, depth+1) {
+				out = append(out, c07Test{call, x})
+			}
+		}
+	}
+	return out
+}
+
+func c07EstEdges(fn *ssa.Function, tests []c07Test) map[c07Edge]bool {
+	est := map[c07Edge]bool{}
+	for _, t := range tests {
+		t := t
+		for _, e := range c07IfEdges(fn, func(v ssa.Value) bool { return v == t.v }) {
+			if t.est {
+				est[e] = true
+			} else {
+				est[c07Other(e)] = true
+			}
+		}
+	}
+	return est
+}
+
+// c07ReachEdge: block from is reachable from the entry without an establishing
+// edge, and the edge from -> to is not itself establishing.
+func c07ReachEdge(fn *ssa.Function, from, to *ssa.BasicBlock, est map[c07Edge]bool) bool {
+	if !c07Reach(fn.Blocks[0], from, est) {
+		return false
+	}
+	for i, s := range from.Succs {
+		if s == to && !est[c07Edge{from, i}] {
+			return true
+		}
+	}
+	return false
+}
+
+// implies: whenever callee returns x, the guard has been established in it.
+func (g *c07Guard) implies(callee *ssa.Function, idx int, h2 ssa.Value, x bool, depth int) bool {
+	if g.memo == nil {
+		g.memo = map[c07GuardMemoKey]int{}
+	}
+	k := c07GuardMemoKey{callee, idx, x}
+	switch g.memo[k] {
+	case 1:
+		return true
+	case 2, 3:
+		return false
+	}
+	g.memo[k] = 3
+	res := func() bool {
+		if callee.Signature.Results().Len() != 1 {
+			return false
+		}
+		tests := g.tests(callee, h2, depth)
+		if len(tests) == 0 {
+			return false
+		}
+		est := c07EstEdges(callee, tests)
+		isTest := func(v ssa.Value) (bool, bool) {
+			for _, t := range tests {
+				if t.v == v || t.v == originValue(v) {
+					return true, t.est
+				}
+			}
+			return false, false
+		}
+		var safe func(v ssa.Value, want bool, at *ssa.BasicBlock, from *ssa.BasicBlock, d int) bool
+		safe = func(v ssa.Value, want bool, at, from *ssa.BasicBlock, d int) bool {
+			reach := func() bool {
+				if from != nil {
+					return c07ReachEdge(callee, from, at, est)
+				}
+				return c07Reach(callee.Blocks[0], at, est)
+			}
+			if c, ok := v.(*ssa.Const); ok && c.Value != nil && c.Value.Kind() == constant.Bool {
+				return constant.BoolVal(c.Value) != want || !reach()
+			}
+			if u, ok := v.(*ssa.UnOp); ok && u.Op == token.NOT && d < 6 {
+				return safe(u.X, !want, at, from, d+1)
+			}
+			if is, e := isTest(v); is && e == want {
+				return true
+			}
+			if ph, ok := v.(*ssa.Phi); ok && d < 6 && ph.Block() == at && from == nil {
+				for i, e := range ph.Edges {
+					if !safe(e, want, at, at.Preds[i], d+1) {
+						return false
+					}
+				}
+				return true
+			}
+			return !reach()
+		}
+		n := 0
+		for _, ri := range Returns(callee) {
+			n++
+			if !safe(ri.Results[0], x, ri.Ret.Block(), nil, 0) {
+				return false
+			}
+		}
+		return n > 0
+	}()
+	if res {
+		g.memo[k] = 1
+	} else {
+		g.memo[k] = 2
+	}
+	return res
+}
+
+// c07Before: an instruction satisfying pred executes before site on every path
+// to it, in the effective body: in site's function; inside a helper called
+// before site that performs it on every path to each of its returns; or
+// before every static call of site's function when that is a helper.
+func (cx *c07Ctx) before(site ssa.Instruction, pred func(ssa.Instruction) bool, depth int) bool {
+	fn := site.Parent()
+	for _, b := range fn.Blocks {
+		for _, in := range b.Instrs {
+			if in == site {
+				continue
+			}
+			if pred(in) && Precedes(in, site) {
+				return true
+			}
+			if ci, ok := in.(*ssa.Call); ok && depth < 3 && Precedes(in, site) {
+				if cal := (CallSite{fn, ci}).Callee(); cal != nil && cal != fn && cal.Blocks != nil && (InModule(cal) || cal.Parent() != nil) && cx.always(cal, pred, depth+1) {
+					return true
+				}
+			}
+		}
+	}
+	if depth < 3 && cx.followable(fn) && !c07Exported(fn) {
+		for _, c := range cx.callers(fn) {
+			if !cx.before(c.Instr, pred, depth+1) {
+				return false
+			}
+		}
+		return true
+	}
+	return false
+}
+
+// always: every return of fn is preceded by an instruction satisfying pred.
+func (cx *c07Ctx) always(fn *ssa.Function, pred func(ssa.Instruction) bool, depth int) bool {
+	rets := Returns(fn)
+	if len(rets) == 0 {
+		return false
+	}
+	for _, ri := range rets {
+		ok := false
+		for _, b := range fn.Blocks {
+			for _, in := range b.Instrs {
+				if ok || in == ssa.Instruction(ri.Ret) {
+					continue
+				}
+				if pred(in) && Precedes(in, ri.Ret) {
+					ok = true
+				} else if ci, isCall := in.(*ssa.Call); isCall && depth < 3 && Precedes(in, ri.Ret) {
+					if cal := (CallSite{fn, ci}).Callee(); cal != nil && cal != fn && cal.Blocks != nil && (InModule(cal) || cal.Parent() != nil) && cx.always(cal, pred, depth+1) {
+						ok = true
+					}
+				}
+			}
+		}
+		if !ok {
+			return false
+		}
+	}
+	return true
 }
